@@ -46,7 +46,22 @@ InputKept(line) ==
    (IF "d3b" \in DOMAIN line /\ "d3" \in DOMAIN line
     THEN Ds("from_v3_changed_its_input", "input3", Diff(line.d3, line.d3b, <<>>)) ELSE {})
 
-Violations(line) ==
+(* The document converted back is an OpenAPI 2 document that describes the same API, so the first sentence of the     *)
+(* statement holds of it as well: converted to OpenAPI 3 once more (d3a) it passes validation and describes that API.  *)
+(* Judged on the lines whose first round trip is clean (a loss on the way is reported once, where it happens).          *)
+Again(line) ==
+   IF "again" \notin DOMAIN line THEN {}
+   ELSE IF line.again # "ok" THEN Plain("to_v3_again_" \o line.again)
+   ELSE LET d == line.d
+            d3a == IF line.d3aSame THEN line.d3 ELSE line.d3a
+        IN (IF line.vala # "ok" THEN Plain("v3_again_invalid_" \o line.vala) ELSE {})
+           \cup (IF line.d3aSame THEN {}
+                 ELSE Ds("v3_again_describes_another_api", "again", ApiDiff(Api2(d), Api3(d3a)))
+                      \cup Ds("v3_again_states_another_serialisation", "again", SerDiffs(Api2(d), Api3(d3a)))
+                      \cup (IF ServersFwdOK(d, d3a) THEN {}
+                            ELSE {V("v3_again_servers", "again", <<"servers">>, Srv2(d, TRUE), A(SetToSeq({S(u) : u \in Servers3(d3a)})))}))
+
+FirstTrip(line) ==
    IF Step(line, "un") # "ok" THEN Plain("v2_document_not_read_" \o Step(line, "un"))
    ELSE Ds("realised_differs", "realise", ApiDiff(Api2(line.d), Api2(line.rd)) \cup SerDiffs(Api2(line.d), Api2(line.rd)))
         \cup InputKept(line)
@@ -56,6 +71,8 @@ Violations(line) ==
                    \cup Fwd(line)
                    \cup (IF Step(line, "from3") # "ok" THEN Plain("from_v3_" \o Step(line, "from3"))
                          ELSE Back(line)))
+
+Violations(line) == LET first == FirstTrip(line) IN IF first = {} THEN Again(line) ELSE first
 
 Report(line, v) ==
    [case |-> line.case, ids |-> IF "ids" \in DOMAIN line THEN line.ids ELSE <<>>, d |-> line.d,
